@@ -79,7 +79,7 @@ var optionDeps = map[string]struct {
 	"config.Config.AcmeFailInitialDuration":  {[]string{"C17"}, "retry of a failed signing"},
 	"config.Config.AcmeFailMaxDuration":      {[]string{"C17"}, "retry of a failed signing"},
 	"config.Config.AllowCrossNamespace":      {[]string{"C09", "C15"}, "the command-line permission"},
-	"config.Config.AnnPrefix":                {[]string{"C09", "C16", "C18", "C19"}, "which annotations are read at all"},
+	"config.Config.AnnPrefix":                {[]string{"C06", "C09", "C16", "C18", "C19"}, "which annotations are read at all, and their precedence"},
 	"config.Config.BackendShards":            {[]string{"C05"}, "number of backend shard files"},
 	"config.Config.ConfigMapName":            {[]string{"C01", "C14"}, "which ConfigMap is the global configuration"},
 	"config.Config.TCPConfigMapName":         {[]string{"C01", "C14"}, "which ConfigMap holds the tcp services"},
@@ -279,9 +279,50 @@ func init() {
 		p := p
 		fields := byProp[p]
 		sort.Strings(fields)
+		addRule(p, &core.Rule{ID: p + ".entrypoint-args", Floor: 3, Run: entrypointArgs,
+			Doc: "rootfs/start.sh, the entrypoint of the image: the line that executes /haproxy-ingress-controller passes the positional parameters as \"$@\" and contains no expansion outside double quotes. The options this property depends on are read from that command line; an unquoted $@ or an appended unquoted variable is split and glob-expanded by the shell first (`--disable-config-keywords *` becomes the file names of the working directory, a value with a blank becomes two arguments). Decided on the text of the script (quote state per character of that line); the script is not executed."})
 		addRule(p, &core.Rule{ID: p + ".options-wiring", Floor: len(fields), Run: func(c *core.Ctx) { optionsWiring(c, p, fields) },
 			Doc: "Option wiring: the fields of Config / InstanceOptions / ConverterOptions / DynamicConfig this property depends on (" + strings.Join(shortFields(fields), ", ") + ") are filled, by Services.setup, by the legacy configController and (Config, from the command line) by CreateWithConfig, with the reviewed expressions (rules/options_gen.go: configuration value, rendered name-independently), and the objects that must be shared between the cache and the converters (tracker, permission bits, cache) are one object. Every unit test builds its own options, so a field filled from the wrong configuration value, from a constant or not at all is invisible to the suite. Only the listed fields are compared: the two functions wire every service of the process."})
 	}
+}
+
+// The command line reaches the controller through the entrypoint of the image (rootfs/start.sh): the
+// line that executes the controller passes the positional parameters as "$@" and nothing that the shell
+// splits or glob-expands (`--disable-config-keywords *` would become the names of the files in /).
+func entrypointArgs(c *core.Ctx) {
+	const rel = "rootfs/start.sh"
+	b, err := c.ReadRepoFile(rel)
+	if err != nil {
+		c.MissingAnchor(rel + ": " + err.Error())
+		return
+	}
+	n := 0
+	for i, line := range strings.Split(string(b), "\n") {
+		l := strings.TrimSpace(line)
+		if strings.HasPrefix(l, "#") || !strings.Contains(l, "/haproxy-ingress-controller") {
+			continue
+		}
+		n++
+		// every expansion on the line is inside double quotes
+		inD, inS, bad := false, false, ""
+		for j := 0; j < len(l); j++ {
+			switch ch := l[j]; {
+			case ch == '\\' && !inS:
+				j++
+			case ch == '\'' && !inD:
+				inS = !inS
+			case ch == '"' && !inS:
+				inD = !inD
+			case (ch == '$' || ch == '`') && !inD && !inS:
+				bad = l[j:]
+				j = len(l)
+			}
+		}
+		where := fmt.Sprintf("%s:%d", rel, i+1)
+		c.Check(bad == "", "the controller is executed with quoted expansions only", where, l, "unquoted expansion `"+clip(bad, 60)+"` on the line that executes the controller: the shell splits and glob-expands it before the controller parses its options")
+		c.Check(strings.Contains(l, `"$@"`), "the controller receives the positional parameters as \"$@\"", where, l, "the line that executes the controller does not pass \"$@\"")
+	}
+	c.Check(n >= 1, "entrypoint executes the controller", rel, fmt.Sprintf("%d line(s)", n), "no line of the entrypoint executes /haproxy-ingress-controller")
 }
 
 func shortFields(fs []string) []string {
